@@ -59,7 +59,7 @@ BoolWords == FalseWords \cap TrueWords = {} /\
                                   /\ (out.err = "" => out.val = (inp.base \in TrueWords)))
 (* alpha_A, beta_A: (a, alpha_A[a], beta_A[a]) is an even permutation of (0,1,2); the cross product and the axial vector
    written with the tables are the ones of the Levi-Civita symbol *)
-TablesCyclic == \A a \in 1..3 : LeviCivita(a - 1, AlphaA[a], BetaA[a]) = 1 /\ LeviCivita(a - 1, BetaA[a], AlphaA[a]) = -1
+TablesCyclic == Done("cross") => \A a \in 1..3 : LeviCivita(a - 1, AlphaA[a], BetaA[a]) = 1 /\ LeviCivita(a - 1, BetaA[a], AlphaA[a]) = -1
 CrossIsLeviCivita == Done("cross") => out = CrossLC(inp.u, inp.v)
 AxialIsLeviCivita == Done("axial") => out = AxialLC(inp.F)
 (* iterate_nd: every point of the box exactly once, first index outermost; pm: the box -n..n (symmetric, holds n) *)
